@@ -247,8 +247,8 @@ class C15(Spec):
 
     def gen(self, tier, rng):
         cases = boundary_cases() + bracket_cases(rng, tier)
-        count = 1000 if tier == 'quick' else 26000
-        nh = 450 if tier == 'quick' else 4500
+        count = 1000 if tier == 'quick' else 20000
+        nh = 450 if tier == 'quick' else 3600
         for k in range(nh):
             method = METHODS[k % len(METHODS)]
             nd = rng.choice([1, 1, 1, 2, 3]) if method != 'akima' else rng.choice([1, 1, 1, 1, 2])
